@@ -293,6 +293,52 @@ mod verif_driver_redeemers {
                 witness("c14_cardano/mint_redeemer_index#reachable-panic", "mint_redeemer_index", format!("{} (mint and burn of 3 each) class=redeemer-of-a-cancelled-policy", describe(&c)), "panic".into(), "Ok or Err");
             }
         }
+        // ---- the DATA of a redeemer is the template's expression: a field-less case other than the first keeps its constructor
+        // index (it is not the unit value), on every purpose ----
+        for ctor in [0usize, 1, 2, 7] {
+            n += 1;
+            let r = tir::Expression::Struct(tir::StructExpr { constructor: ctor, fields: vec![] });
+            let mut tx = empty_tx();
+            tx.inputs.push(input_block("in0", &[(0x11, 0)], r.clone()));
+            tx.mints.push(tir::Mint { amount: tir::Expression::Assets(vec![token(0xaa, 3)]), redeemer: r.clone() });
+            tx.adhoc.push(withdrawal(0x02, 1_000_000, r.clone()));
+            let pparams = PParams { network: Network::Testnet, min_fee_coefficient: 44, min_fee_constant: 155381, coins_per_utxo_byte: 4310,
+                cost_models: HashMap::from([(0u8, vec![0i64; 166]), (1u8, vec![0i64; 175]), (2u8, vec![0i64; 251])]) };
+            let want_tag = if ctor <= 6 { 121 + ctor as u64 } else { 1280 + (ctor as u64 - 7) };
+            match entry_point(&tx, &pparams) {
+                Err(e) => witness("c08_cardano/compile_redeemers#postcondition", "compile_redeemers", format!("field-less constructor {ctor} as the redeemer of an input, a mint and a withdrawal class=redeemer-data"), format!("Err({e})"), "three redeemers whose data is that constructor"),
+                Ok(t) => {
+                    let mut tags: Vec<(String, Option<u64>)> = vec![];
+                    if let Some(primitives::Redeemers::Map(m)) = t.transaction_witness_set.redeemer.as_deref() {
+                        for (k, v) in m.iter() { tags.push((format!("{:?}", k.tag), match &v.data { primitives::PlutusData::Constr(c) => Some(c.tag), _ => None })); }
+                    }
+                    if tags.len() != 3 || tags.iter().any(|(_, t)| *t != Some(want_tag)) {
+                        witness("c08_cardano/compile_redeemers#postcondition", "compile_redeemers", format!("field-less constructor {ctor} as the redeemer of an input, a mint and a withdrawal class=redeemer-data"), format!("{tags:?}"), &format!("three redeemers with constructor tag {want_tag}"));
+                    }
+                }
+            }
+        }
+        // ---- a redeemer expression that has no data form makes the transaction fail: the block never goes out WITHOUT its redeemer ----
+        for (purpose, which) in [("spend", 0u8), ("mint", 1), ("withdrawal", 2)] {
+            for (rd, r) in [("a UTxO reference", tir::Expression::UtxoRefs(vec![tx3_tir::model::core::UtxoRef { txid: vec![1; 32], index: 0 }])), ("an asset value", tir::Expression::Assets(vec![token(0xcc, 1)])), ("an unapplied parameter", tir::Expression::EvalParam(Box::new(tir::Param::ExpectValue("p".into(), tx3_tir::model::core::Type::Int))))] {
+                n += 1;
+                let mut tx = empty_tx();
+                tx.inputs.push(input_block("in0", &[(0x11, 0)], if which == 0 { r.clone() } else { tir::Expression::None }));
+                if which == 1 { tx.mints.push(tir::Mint { amount: tir::Expression::Assets(vec![token(0xaa, 3)]), redeemer: r.clone() }); }
+                if which == 2 { tx.adhoc.push(withdrawal(0x02, 1_000_000, r.clone())); }
+                let pparams = PParams { network: Network::Testnet, min_fee_coefficient: 44, min_fee_constant: 155381, coins_per_utxo_byte: 4310,
+                    cost_models: HashMap::from([(0u8, vec![0i64; 166]), (1u8, vec![0i64; 175]), (2u8, vec![0i64; 251])]) };
+                let prev = std::panic::take_hook();
+                std::panic::set_hook(Box::new(|_| {}));
+                let out = std::panic::catch_unwind(std::panic::AssertUnwindSafe(|| entry_point(&tx, &pparams).map(|t| t.transaction_witness_set.redeemer.as_deref().map(|r| match r { primitives::Redeemers::Map(m) => m.len(), primitives::Redeemers::List(l) => l.len() }).unwrap_or(0))));
+                std::panic::set_hook(prev);
+                match out {
+                    Err(_) => witness("c14_cardano/compile_redeemers#reachable-panic", "compile_redeemers", format!("{purpose} redeemer that is {rd}"), "panic".into(), "Ok or Err"),
+                    Ok(Ok(0)) => witness("c08_cardano/compile_redeemers#postcondition", "compile_redeemers", format!("{purpose} block whose redeemer is {rd} (no data form) class=redeemer-silently-left-out"), "Ok: a transaction without the redeemer".into(), "an error (or the redeemer): the block never goes out without its redeemer"),
+                    Ok(_) => {}
+                }
+            }
+        }
         println!("VERIF-CASES fn=compile_redeemers n={n}");
         println!("VERIF-CASES fn=compile_spend_redeemers n={n}");
         println!("VERIF-CASES fn=compile_single_spend_redeemer n={n}");
